@@ -24,15 +24,21 @@ var zzTLS struct {
 	kcpN    int
 }
 
-func zzStubRandomKeyPair() *tls.Certificate                            { return &tls.Certificate{} }
-func zzStubCustomKeyPair(cert, key string) (*tls.Certificate, error)    { return &tls.Certificate{}, nil }
-func zzStubCertPool(ca string) (*x509.CertPool, error)                  { zzTLS.pool = &x509.CertPool{}; return zzTLS.pool, nil }
+func zzStubRandomKeyPair() *tls.Certificate                          { return &tls.Certificate{} }
+func zzStubCustomKeyPair(cert, key string) (*tls.Certificate, error) { return &tls.Certificate{}, nil }
+func zzStubCertPool(ca string) (*x509.CertPool, error) {
+	zzTLS.pool = &x509.CertPool{}
+	return zzTLS.pool, nil
+}
 func zzStubQuicListenAddr(addr string, tlsConf *tls.Config, config *quic.Config) (*quic.Listener, error) {
 	zzTLS.quicCfg = tlsConf
 	zzTLS.quicN++
 	return &quic.Listener{}, nil
 }
-func zzStubListenKcp(address string) (net.Listener, error) { zzTLS.kcpN++; return &zzListener{addr: address}, nil }
+func zzStubListenKcp(address string) (net.Listener, error) {
+	zzTLS.kcpN++
+	return &zzListener{addr: address}, nil
+}
 
 // VerifC05Listeners: every TLS-terminating listener NewService creates carries the peer
 // verification settings that the trusted CA implies (TCP/websocket share svr.tlsConfig; QUIC
